@@ -116,6 +116,22 @@ def run(ctx, res):
         one_case(ctx, res, "random", rng.choice(["fd", "sd"]), rng.random() < 0.5, items)
         if i == 1:
             res.sample({"items": [("eos",) if it[0] == "eos" else (it[1], len(it[2])) for it in items]})
+    # every block of a side as the FIRST block of a file: k blocks of filler (one or two files), then a short file, then one more
+    ks = list(range(0, 157)) if ctx.thorough else [0, 1, 2, 37, 38, 39, 40, 78, 154, 155, 156]
+    st = res.stream("first_block_sweep", exhaustive=True)
+    for k in ks:
+        items = []
+        if k > 0:
+            k1 = rng.randint(1, k) if rng.random() < 0.5 else k
+            items.append(("file", "fill1.dat", bytes([k % 200 + 1]) * (2040 * k1 - rng.randint(0, 2039))))
+            if k1 < k:
+                items.append(("file", "fill2.bin", bytes([k % 100 + 7]) * (2040 * (k - k1) - rng.randint(0, 2039))))
+        if rng.random() < 0.3:
+            items.insert(0, ("eos",))
+        items.append(("file", "tail.txt", T.content_for(rng, rng.choice([1, 100, 255, 2040, rng.randint(1, 2040)]))))
+        items.append(("file", "next.bas", T.content_for(rng, rng.choice([0, 1, 3000]))))
+        one_case(ctx, res, st.name, "fd" if k % 3 else "sd", k % 2 == 0, items)
+        res.count(f"first_block_of_tail={k + 1 if k < 39 else k + 3}")
     top = 4100 if ctx.thorough else 0
     if top:
         st = res.stream(f"all_sizes_0..{top}", exhaustive=True)
